@@ -5,6 +5,7 @@ import (
 	"errors"
 	"fmt"
 	"io"
+	"runtime/debug"
 	"testing"
 
 	"github.com/cloudwego/gopkg/bufiox"
@@ -56,7 +57,7 @@ type liveSlice struct {
 // runReaderHistory interprets c against the cursor model. checkLive additionally verifies every
 // retained slice before each Release and at the end (C09).
 func runReaderHistory(c *ReaderCase, cv *cov, checkLive bool, hooks *readerHooks) (v *evid.Violation) {
-	if c.Total < 0 || c.Total > 1<<23 {
+	if c.Total < 0 || c.Total > 1<<27+1<<22 {
 		return nil
 	}
 	src := makeStream(c.Total)
@@ -599,5 +600,94 @@ func TestC04_Ladder(t *testing.T) {
 		}
 	}, rec)
 	rec.Sample(ReaderCase{Total: 1<<20 + 1<<20 + 1<<19 + 100, Plan: faultio.Plan{Chunks: []int{65536}, ErrAt: -1}, Ops: []ROp{{"next", 1 << 20}, {"next", 1<<20 + 1<<19}}})
+	rec.SetExhaustive()
+}
+
+// hugeSizes are request sizes from 4 MiB to 64 MiB (and a little beyond), around every power of two.
+func hugeSizes() []int {
+	var sizes []int
+	top := evid.Pick(25, 26)
+	for k := 22; k <= top; k++ {
+		sizes = append(sizes, 1<<k-1, 1<<k, 1<<k+1, 1<<k+1<<(k-1)+777)
+	}
+	return sizes
+}
+
+// TestC04_Huge: single requests of 4..64 MiB (thorough: ..100 MiB) behind a small consumed prefix.
+func TestC04_Huge(t *testing.T) {
+	rec := evid.New("C04", "c04_huge", "enumeration: histories {Next p; Next n} / {Next p; Peek n; Next n} / {Skip p; ReadBinary n} / {Next p; Release; Next n} for p in {0, 1000} and n in {2^k-1, 2^k, 2^k+1, 2^k+2^(k-1)+777 : k = 22..25 (thorough: ..26)}, over an io.Reader delivering 1 MiB chunks (and one with data+EOF); run one at a time; distinct by construction")
+	defer rec.Flush()
+	bt := evid.NewBatch()
+	shard, nshards := evid.Shard()
+	idx := 0
+	for _, n := range hugeSizes() {
+		for _, p := range []int{0, 1000} {
+			progs := [][]ROp{
+				{{"next", p}, {"next", n}},
+				{{"next", p}, {"peek", n}, {"next", n}},
+				{{"skip", p}, {"readbin", n}},
+				{{"next", p}, {"release", 0}, {"next", n}},
+			}
+			for pi, ops := range progs {
+				idx++
+				if idx%nshards != shard {
+					continue
+				}
+				c := ReaderCase{Total: p + n + 100, Plan: faultio.Plan{Chunks: []int{1 << 20}, ErrAt: -1, WithData: pi%2 == 1}, Ops: ops}
+				var cv cov
+				v := checkReaderCase(c, &cv)
+				bt.Evals++
+				bt.Distinct++
+				bt.Nontrivial++
+				if v != nil {
+					failEnum(t, rec, "c04_reader_history", c, v)
+					rec.Merge(bt)
+					return
+				}
+			}
+		}
+		debug.FreeOSMemory()
+	}
+	rec.Merge(bt)
+	rec.Sample(ReaderCase{Total: 1000 + 1<<25 + 1 + 100, Plan: faultio.Plan{Chunks: []int{1 << 20}, ErrAt: -1}, Ops: []ROp{{"next", 1000}, {"next", 1<<25 + 1}}})
+	rec.SetExhaustive()
+}
+
+// TestC04_Trickle: one large request served by very many tiny source reads with empty reads in between
+// (never many in a row): the number of empty reads during one request goes far beyond any small bound
+// while the source keeps making progress.
+func TestC04_Trickle(t *testing.T) {
+	rec := evid.New("C04", "c04_trickle", "enumeration: a single Next / Peek+Next / ReadBinary / Skip of n bytes (n in {150, 700, 1500, 5000, 20000}) after a consumed prefix of {0, 10} bytes, over a source delivering chunks of {1, 2, 3, 8} bytes with (0,nil) reads before chunks in the patterns {[1], [0,1], [3], [0,0,2], [2,3]} (up to 60000 empty reads within one request, at most 3 in a row), final data with or without io.EOF; distinct by construction")
+	defer rec.Flush()
+	bt := evid.NewBatch()
+	for _, n := range []int{150, 700, 1500, 5000, 20000} {
+		for _, chunk := range []int{1, 2, 3, 8} {
+			for zi, zeros := range [][]int{{1}, {0, 1}, {3}, {0, 0, 2}, {2, 3}} {
+				for _, pre := range []int{0, 10} {
+					progs := [][]ROp{
+						{{"next", pre}, {"next", n}},
+						{{"next", pre}, {"peek", n}, {"next", n}},
+						{{"next", pre}, {"readbin", n}},
+						{{"next", pre}, {"skip", n}, {"next", 5}},
+					}
+					for pi, ops := range progs {
+						c := ReaderCase{Total: pre + n + 5, Plan: faultio.Plan{Chunks: []int{chunk}, Zeros: zeros, ErrAt: -1, WithData: (pi+zi)%2 == 0}, Ops: ops}
+						var cv cov
+						v := checkReaderCase(c, &cv)
+						bt.Evals++
+						bt.Distinct++
+						bt.Nontrivial++
+						if v != nil {
+							failEnum(t, rec, "c04_reader_history", c, v)
+							rec.Merge(bt)
+							return
+						}
+					}
+				}
+			}
+		}
+	}
+	rec.Merge(bt)
+	rec.Sample(ReaderCase{Total: 1505, Plan: faultio.Plan{Chunks: []int{8}, Zeros: []int{1}, ErrAt: -1}, Ops: []ROp{{"next", 0}, {"next", 1500}}})
 	rec.SetExhaustive()
 }
